@@ -203,6 +203,42 @@ theorem C18_accepted_passes_schema (s : Spec) (h : Validate.validateSpec s = .ok
   simp only [Res.ok.injEq] at h
   exact C18_lib_valid_passes_schema s h hr
 
+/-! ### The schema installed as Spec validator -/
+
+/-- `newSpec` with a Spec validator installed (`cdi.SetSpecValidator`): the validator sees the Spec first; what it
+refuses is an error and the library's own checks are not reached -/
+def admitWith (validator : Option (Spec → Bool)) (s : Spec) : Res Bool :=
+  match validator with
+  | some v => if v s then Validate.validateSpec s else .ok false
+  | none => Validate.validateSpec s
+
+/-- the builtin schema as Spec validator (`schema.WithSchema(schema.BuiltinSchema())`): the in-memory object as the
+JSON value the library would write for it -/
+def builtinValidator (s : Spec) : Bool := validates Generated.builtinSchema (encodeSpec s)
+
+/-- **C18 (the builtin schema as validator changes nothing)**: installing it never turns a loadable Spec into an
+error - and, a validator only ever refusing, never the other way round: admission with it equals admission without. -/
+theorem C18_validator_changes_nothing (s : Spec) (hr : specInRange s) :
+    admitWith (some builtinValidator) s = admitWith none s := by
+  unfold admitWith
+  simp only
+  by_cases hv : builtinValidator s = true
+  · simp [hv]
+  · simp only [hv, if_false]
+    rw [Validate.C05_admit_iff]
+    by_cases hwf : SpecWF.WellFormed s = true
+    · exact absurd (C18_lib_valid_passes_schema s hwf hr) (by simpa [builtinValidator] using hv)
+    · simp at hwf; simp [hwf]
+
+/-- any validator can only refuse: what is admitted with one installed is admitted without -/
+theorem C18_validator_only_refuses (v : Spec → Bool) (s : Spec) (h : admitWith (some v) s = .ok true) :
+    admitWith none s = .ok true := by
+  unfold admitWith at *
+  simp only at *
+  by_cases hv : v s = true
+  · simpa [hv] using h
+  · simp [hv] at h
+
 /-! ### Non-vacuity -/
 example : specInRange Validate.oneLetterKind := by
   intro e he
